@@ -86,7 +86,7 @@ def build() -> Check:
                 if not (isinstance(rc, Const) and rc.value is False):
                     bad.append((f"a fully recorded result is flagged ReplayChildren={rc.key() if rc else None}", t))
         ck.ob("R1.summary-not-payload", c_child, not bad, (bad[0][0] + ": " + trace_sig(bad[0][1])) if bad else "", cell=st)
-    ck.floor("large_branch_traces", n_large, 2)
+    ck.floor("large_branch_traces", n_large, 1)
     ck.floor("small_branch_traces", n_small, 1)
     ck.ob("R1.limit-is-256KiB", c_child, limit_v == str(256 * 1024), f"checkpoint size limit evaluates to {limit_v}")
 
@@ -106,7 +106,7 @@ def build() -> Check:
             bad.append(("a summarised context sends a record / re-serialises on replay", t))
         if t.outcome == "return" and not t.value.key().startswith("ret:func"):
             bad.append((f"replay returns {t.value.key()} instead of the rebuilt result", t))
-    ck.floor("replay_children_traces", n_rc, 2)
+    ck.floor("replay_children_traces", n_rc, 1)
     ck.ob("R2.replay-children-cell", c_child, not bad, (bad[0][0] + ": " + trace_sig(bad[0][1])) if bad else "", cell="SUCCEEDED")
 
     # R3 map / parallel handler dispatch + replay mapping ------------------------------------------
@@ -261,7 +261,7 @@ def build() -> Check:
                 bad.append(("oversized error: response still carries the error / wrong record", t))
         elif sv == "FAILED" and not cks:
             bad.append(("oversized error returned without recording it", t))
-    ck.floor("wrapper_oversize_traces", n_big, 2)
+    ck.floor("wrapper_oversize_traces", n_big, 1)
     ck.ob("R5.wrapper-oversize", fn_construct(wrapper), not bad, (bad[0][0] + ": " + trace_sig(bad[0][1])[-400:]) if bad else "")
     ck.ob("R5.response-limit", fn_construct(wrapper), lim == {str(6 * 1024 * 1024 - 50)}, f"response size limit evaluates to {sorted(lim)}")
     return ck
